@@ -29,7 +29,7 @@ ASSUMPTIONS = [
     "reference wire walker and name decoder; RDATA decoded with dns.rdata.from_wire (C02)",
     "maximality of the kept prefix is not demanded; TooBig under prefer_truncation is legitimate only when header+question-less OPT/padding/TSIG alone exceed the limit",
 ]
-REQUIRED = ["mon.bulky_opt_record", "mon.direct_renderer", "mon.padding_option_already_present", "mon.render_under_limit", "mon.prefix_check", "mon.tc_rule", "mon.padding_multiple", "mon.toobig_legitimacy", "mon.truncated_outcomes"]
+REQUIRED = ["mon.first_rendering_with_tsig_placeholder", "mon.bulky_opt_record", "mon.direct_renderer", "mon.padding_option_already_present", "mon.render_under_limit", "mon.prefix_check", "mon.tc_rule", "mon.padding_multiple", "mon.toobig_legitimacy", "mon.truncated_outcomes"]
 BUDGET = {"quick": 32.0, "thorough": 480.0}
 
 
@@ -141,6 +141,11 @@ def check_limit(ctx, spy, m, info, key, L, prefer, full_len, min_len, want_sets,
     E = effective_limit(m, L)
     case = {"kind": "limit", "L": L, "prefer": prefer, "pad": m.pad, "tsig": key is not None, "info": info, "full_len": full_len, "text": None}
     spy.tables.clear()
+    if key is not None and L % 2 == 0:
+        # as on a message's FIRST rendering: the TSIG record is the placeholder use_tsig() makes (its MAC length comes from a
+        # per-algorithm table), not the signed record a previous rendering left behind
+        m.use_tsig(key)
+        ctx.count("mon.first_rendering_with_tsig_placeholder")
     try:
         w = render(m, L, prefer)
         outcome = "ok"
